@@ -21,7 +21,13 @@ type verifW struct {
 }
 
 func (w *verifW) Header() http.Header { return w.h }
-func (w *verifW) WriteHeader(s int)   { w.status = s }
+func (w *verifW) WriteHeader(s int) {
+	// as net/http: informational (1xx) responses are interim, the first other
+	// status is the one that is committed
+	if w.status == 0 || (w.status >= 100 && w.status < 200) {
+		w.status = s
+	}
+}
 func (w *verifW) Write(b []byte) (int, error) {
 	n := len(b)
 	if w.short != nil {
@@ -244,6 +250,11 @@ func VerifC19_Capture() {
 	c := CaptureResponse(inner)
 	code := nondetInt("code")
 	verifAssume(code >= 100 && code <= 599)
+	if nondetBool("informational-response-first") {
+		info := nondetInt("informational")
+		verifAssume(info >= 100 && info <= 199 && code >= 200)
+		c.WriteHeader(info)
+	}
 	c.WriteHeader(code)
 	total := 0
 	writes := nondetChoice("writes", 3) + 1
